@@ -32,6 +32,7 @@ def jobs(tier, seed):
         J.append(dict(name="tlv-anysize:%s" % "+".join(pat), kind="tlv", pattern=pat, fits=False, timeout=1500, cost=500))
     for lens in ([0], [1], [110], [111], [112], [113], [250], [5, 111], [112, 3], [40, 40, 40]):
         J.append(dict(name="setconfig:%s" % lens, kind="setconfig", lens=lens, timeout=900, cost=100))
+    J.append(dict(name="setconfig-history:tags-edited-between-calls", kind="setconfig", lens=[2, 3], hist=True, timeout=900, cost=100))
     J.append(dict(name="tlv:twin", kind="tlv", pattern=["set", "set"], fits=True, twin=True, expect="violated", timeout=300))
     return J
 
@@ -285,6 +286,20 @@ def run_setconfig(job, sym, runner, stubs, bf):
             cfg[(0x0100 + i, 0x10 + i)] = sym.sym_bytes("c%d_" % i, L)
         extra = [sym.sym_bytes("x", 3)]
         plain = bf.Bf3Component({0xC3: b"\x02"}, b"fw")
+        if job.get("hist"):
+            # an earlier package of the same process whose configuration component's tags were edited by the caller
+            # afterwards (and a second call on that package): the next component's tags are the documented ones again
+            earlier = bf.Bf3File({}, [])
+            earlier.set_config({(0x0101, 0x01): sym.sym_bytes("e", 2)})
+            ed = earlier.components[-1].description
+            ed[0xC5] = b"\x00"
+            ed[0xC4] = sym.sym_bytes("hw", 2)
+            earlier.set_config({(0x0101, 0x02): b"\x05"})
+            e2 = earlier.components[-1]
+            if len(earlier.components) != 1 or list(e2.description.items()) != [(0xC3, b"\x03"), (0xC2, b"\x02"), (0xC1, b"\x03"), (0xC5, b"\x01")]:
+                runner.record_witness(cfg={}, extra=b"", why="second call on the edited package")
+                return False
+            e2.description[0xC8] = b"\x01\x02\x03\x04\x05"
         f = bf.Bf3File({}, [plain])
         f.set_config(cfg, extra)
         c = f.components[-1]
@@ -321,6 +336,21 @@ def replay(job):
 
         cfg = {eval(k): unhex(v) for k, v in (w.get("cfg") or {}).items()}
         extra = [unhex(w.get("extra", {"hex": "010203"}))]
+        if job.get("hist"):
+            earlier = bf.Bf3File({}, [])
+            earlier.set_config({(0x0101, 0x01): b"ab"})
+            earlier.components[-1].description[0xC5] = b"\x00"
+            earlier.components[-1].description[0xC4] = b"\x00\x9b"
+            earlier.set_config({(0x0101, 0x02): b"\x05"})
+            d2 = dict(earlier.components[-1].description)
+            earlier.components[-1].description[0xC8] = b"\x01\x02\x03\x04\x05"
+            if not cfg:
+                cfg = {(0x0100, 0x10): b"\x01\x02", (0x0101, 0x11): b"\x03\x04\x05"}
+            f = bf.Bf3File({}, [bf.Bf3Component({0xC3: b"\x02"}, b"fw")])
+            f.set_config(cfg, extra)
+            d3 = dict(f.components[-1].description)
+            want = {0xC3: b"\x03", 0xC2: b"\x02", 0xC1: b"\x03", 0xC5: b"\x01"}
+            return dict(reproduced=d2 != want or d3 != want, signature="C10:setconfig-framing", detail="set_config after the caller edited the tags of an earlier configuration component: new component tags %r / %r, documented %r" % (d2, d3, want))
         f = bf.Bf3File({}, [bf.Bf3Component({0xC3: b"\x02"}, b"fw")])
         f.set_config(cfg, extra)
         c = f.components[-1]
